@@ -47,6 +47,12 @@ def _job(job) -> List[Dict[str, Any]]:
     if op == "rate":
         sel, gam = variant.split("/")
         kw = {"tau": "any" if boxname == "sigma>=1e-4,tau>=0" else "truthy", "limit_sigma": "any"}
+        if boxname == "sigma>=0,tau>0":
+            # sigma = 0 is valid when the tau in force is positive: here the per-call tau is > 0 while the model's own tau may be 0
+            from ..ai.values import Interval, Num as _Num
+
+            mt = box.num("tau", sym=("param", "model.tau"), prov=frozenset({"CTOR:tau"}))
+            kw["model_overrides"] = {"tau": mt.with_(rng=Interval(0.0, mt.rng.hi, False, mt.rng.hi_open)) if mt.rng is not None else mt}
         if sel != "none":
             kw[sel] = "list-of-mixed-int-float-bool"
         custom = gam == "callback"
